@@ -175,6 +175,27 @@ class FileSystemModel:
             return f
         if isinstance(call.func, ast.Attribute):
             attr = call.func.attr
+            if attr in ("joinpath", "with_suffix", "with_name", "resolve", "absolute", "as_posix", "open"):
+                recv = interp.ev(call.func.value)
+                if isinstance(recv, dict) and recv.get("__class__") == "<path>":
+                    here = recv["__str__"]
+                    if attr == "joinpath":
+                        out = recv
+                        for a in args:
+                            out = out / a
+                        return out
+                    if attr == "with_suffix" and args:
+                        return self.path(here[: len(here) - len(recv["suffix"])] + args[0])
+                    if attr == "with_name" and args:
+                        return recv["parent"] / args[0] if "parent" in recv else self.path(args[0])
+                    if attr in ("resolve", "absolute"):
+                        return recv if here.startswith("/") else self.path("/cwd/" + here)
+                    if attr == "as_posix":
+                        return here
+                    if attr == "open":
+                        fake = ast.Call(func=ast.Name(id="open", ctx=ast.Load()), args=[], keywords=[])
+                        return self.hook(run, interp, ast.copy_location(fake, call), [recv, *args], kw)
+                return NotImplemented
             if attr in ("read", "readline", "readlines", "write", "writelines", "close", "flush", "is_file", "exists", "is_dir"):
                 recv = interp.ev(call.func.value)
                 if isinstance(recv, dict) and recv.get("__class__") == "<path>" and attr in ("is_file", "exists", "is_dir"):
